@@ -184,6 +184,7 @@ CfgFails(o) ==
   (IF E2EBgpBad(o) = {} THEN {} ELSE {"C10.CfgRoutes"}) \cup
   (IF (IF E = {} THEN a = {} ELSE Cardinality(a) = 1) THEN {} ELSE {"C04.CfgExactlyOne"}) \cup
   (IF a \subseteq E THEN {} ELSE {"C04.CfgEligible"}) \cup
+  (IF Cardinality(E) >= 2 /\ DuelsKnown(o.in.pairs[1][1], E) /\ a # DuelMin(o.in.pairs[1][1], E) THEN {"C12.CfgByDuels"} ELSE {}) \cup
   (IF E2EL2OK(o) THEN {} ELSE {"C04.CfgController"})
 
 ----------------------------------------------------------------------------
